@@ -63,6 +63,7 @@ func init() {
 			ruleParseRequestsNormalisesID(c)
 			ruleMixedFieldsRejected(c)
 			ruleBridgeParsesWholeBody(c)
+			ruleResponseMarshal(c)
 			ruleConstantFormats(c)
 			if d := dispatchOrUndecided(c, "ROLE.dispatch"); d != nil {
 				ruleDupTableHoldsOnlyIDs(c, d)
@@ -87,6 +88,7 @@ func init() {
 			ruleQueryValuesCaseSensitive(c)
 			ruleQueryFromParsedForm(c)
 			ruleGetterForwardsRawResult(c)
+			ruleResponseMarshal(c)
 			ruleQuerySliceBounds(c)
 			c.Clause("C19-D4")
 			ruleBodiesClosed(c)
